@@ -27,6 +27,7 @@ RULE = ('cases = (a) every origin combination of a channel concat of 2..3 operan
         'tensor) whose violations are known findings; (e) MPS per-channel search with the 0-bit '
         '(pruning) option through the same oracle.  Non-trivial: a join (add / cat / flatten) with '
         'at least one pruned operand; distinct = hash of (program, masks).')
+RULE += ('  Round 4: DenseNet-style chains of three or four nested concats followed by an excluded / depthwise / residual consumer.')
 ASSUMPTIONS = [
     'R-alive takes every layer\'s own binarised output mask as given and models only the dataflow',
     'the dynamic cross-check is one-sided (dead => exactly zero), a ReLU may kill a live channel',
